@@ -2,14 +2,15 @@
 # devrun.sh <ID> <seed_base> <nruns> [tier]: run a batch with the dev binary ($DEVDIR, default /tmp/vb), print a summary.
 id=$1; base=$2; n=$3; tier=${4:-quick}
 D=${DEVDIR:-/tmp/vb}
-cd $D && rm -f out.json
-VSIM_MODE=batch VSIM_PROP=$id VSIM_TIER=$tier VSIM_SEED_BASE=$base VSIM_WORKER=0 VSIM_NWORKERS=1 VSIM_BUDGET_S=600 VSIM_MAXRUNS=$n VSIM_OUT=$D/out.json VSIM_INFLIGHT=$D/inflight.json VSIM_WATCHDOG_S=20 GOMAXPROCS=1 GODEBUG=asyncpreemptoff=1 ./sim.test -test.run '^TestWorker$' -test.timeout 0 > $D/log.txt 2>&1
+O=${DEVOUT:-out}; export O; cd $D && rm -f $O.json
+VSIM_MODE=batch VSIM_PROP=$id VSIM_TIER=$tier VSIM_SEED_BASE=$base VSIM_WORKER=0 VSIM_NWORKERS=1 VSIM_BUDGET_S=600 VSIM_MAXRUNS=$n VSIM_OUT=$D/$O.json VSIM_INFLIGHT=$D/$O-inflight.json VSIM_WATCHDOG_S=20 GOMAXPROCS=1 GODEBUG=asyncpreemptoff=1 ./sim.test -test.run '^TestWorker$' -test.timeout 0 > $D/$O-log.txt 2>&1
 echo "exit=$?"
 D=$D python3 - <<'PY'
 import json,os
 D=os.environ['D']
-if os.path.exists(D+'/out.json'):
-    d=json.load(open(D+'/out.json'))
+O=os.environ.get('O','out')
+if os.path.exists(D+'/'+O+'.json'):
+    d=json.load(open(D+'/'+O+'.json'))
     print('runs',d['runs'],'nontrivial',d['nontrivial'],'wall',round(d['wall_s'],2),'steps',d['steps'],'sim_s',d.get('sim_s'),'inconclusive',d['inconclusive'])
     print('faults',d['faults'])
     print('probes',d['probes'])
@@ -19,5 +20,5 @@ if os.path.exists(D+'/out.json'):
         print('VIOLATION seed',v['seed'],v['class']); print(v['detail'][:3000]); print(json.dumps(v['scenario'])[:1500])
         for l in (v.get('tail') or [])[-25:]: print('  ',l)
 else:
-    print(open(D+'/log.txt').read()[-6000:])
+    print(open(D+'/'+O+'-log.txt').read()[-6000:])
 PY
